@@ -98,7 +98,9 @@ package signjar
 //@   property C11
 //@   nopanic
 //@   ensures @at_most_one_section_per_input_byte len(ret0) <= len(manifest)
-//@   loop 0 sig "for len(manifest) != 0" invariant len(sections) + len(manifest) <= old(len(manifest))
+//@   ensures @a_well_formed_non_empty_manifest_has_a_main_section !ret1 && len(manifest) > 0 ==> len(ret0) >= 1
+//@   loop 0 sig "for len(manifest) != 0" invariant len(sections) + len(manifest) <= old(len(manifest)) && \
+//@        (malformed || len(sections) >= 1 || len(manifest) == old(len(manifest)))
 //@
 //@ func parseSection
 //@   property C11
@@ -111,3 +113,17 @@ package signjar
 //@ func ParseManifest
 //@   property C11
 //@   nopanic
+//@
+//@ func hashSection
+//@   property C05
+//@   before call invoke hash.Hash.Write(_, p): assert @exactly_the_section_bytes_are_digested sameslice(p, section)
+//@
+//@ func DigestManifest
+//@   property C05 C11
+//@   nopanic
+//@   requires len(manifest) > 0 && 1 <= hash && hash <= 19
+//@   ghost hs int = 0
+//@   before call hashSection(h, sec): assert @main_attributes_then_whole_manifest_then_each_section_in_order h == hash && \
+//@        (hs == 0 ==> sameslice(sec, sections[0])) && (hs == 1 && !sectionsOnly ==> sameslice(sec, manifest))
+//@   on call hashSection(_, _) ret (r): hs = hs + 1
+//@   loop 0 sig "for _, section := range sections[1:]" invariant hs >= 1 && (!sectionsOnly ==> hs >= 2) && len(sections) >= 1
